@@ -186,12 +186,13 @@ func semanticEqual(a, b *types.Operation) string {
 }
 
 func checkC15(c *Ctx) {
-	c.Rule = "ceremonies (key generation + signing, plus a reinitialisation) are driven with an operator that, before every genuine submission, first submits altered variants of the result (other/unknown/retired id, changed type, changed payload byte, request-only, result of another node's operation, result for another round), then the genuine one, then the genuine one again, and sometimes two pending results in reverse order. Every submission is judged on board delta, pool delta, attribution and ed25519 signature of what was posted, and byte-exact state equality when refused. File round trip: every operation and result goes through the real writers/readers (JSON file written by Machine.ProcessOperation, parsed back; the same operation processed twice into the same result file) and is compared field by field. Before each genuine submission the board refuses one message of the result: nothing may be posted, the operation stays pending. Approvals go through the approval path on every channel, also with the board unreachable at the first attempt. distinct = distinct (operation type, submission kind)"
+	c.Rule = "ceremonies (key generation + signing, plus a reinitialisation) are driven with an operator that, before every genuine submission, first submits altered variants of the result (other/unknown/retired id, changed type, changed payload byte, request-only, result of another node's operation, result for another round), then the genuine one, then the genuine one again, and sometimes two pending results in reverse order. Every submission is judged on board delta, pool delta, attribution and ed25519 signature of what was posted, and byte-exact state equality when refused. File round trip: every operation and result goes through the real writers/readers (JSON file written by Machine.ProcessOperation, parsed back; the same operation processed twice into the same result file) and is compared field by field. Before each genuine submission the board refuses one message of the result: nothing may be posted, the operation stays pending. Approvals go through the approval path on every channel, also with the board unreachable at the first attempt. An operation that was exported and whose round a state reset (ignore list naming the opening message) then dropped: the late result must be refused. distinct = distinct (operation type, submission kind)"
 	c.Assumptions = []string{"MemState", "ResultMsgs are not checkable by the node (they come from the machine); the property only demands that exactly those are posted"}
 	worlds := c.Pick(48, 400)
 	Parallel(worlds, 12, func(wi int) { runC15(c, wi, c.Seed*109+uint64(wi)) })
 	c15RoundTrip(c)
 	c15ConcurrentDuplicates(c)
+	c15AfterReset(c)
 }
 
 // c15ConcurrentDuplicates: "cannot be answered again" also when the same result is submitted twice at the
@@ -683,4 +684,91 @@ func c15RoundTrip(c *Ctx) {
 		}
 	}
 	var _ = storage.Message{}
+}
+
+// c15AfterReset: an operation the operator has already exported (looked up by id) whose round is then
+// dropped by a state reset (refresh_state with an ignore list naming the round's opening message) is not
+// pending any more: the replay does not create it again. The late result for it - the operator comes back
+// from the machine after the reset - must be refused like any other result for an operation that is not
+// in the pool.
+func c15AfterReset(c *Ctx) {
+	for rep := 0; rep < c.Pick(6, 24); rep++ {
+		func() {
+			seed := c.Seed*131 + uint64(rep)
+			w, err := world.NewWorld(world.Options{N: 2, T: 2, Seed: seed})
+			if err != nil {
+				c.Inconclusive("after-reset world: %v", err)
+				return
+			}
+			defer w.Close()
+			v := w.Nodes[1]
+			if _, err := w.StartDKG(0, 2, now()); err != nil {
+				c.Inconclusive("after-reset world: %v", err)
+				return
+			}
+			// drive the round until v's (rep%3+1)-th machine operation is pending
+			skip := rep % 3
+			var op *types.Operation
+			for step := 0; step < 60 && op == nil; step++ {
+				for _, nd := range w.Nodes {
+					_, _ = nd.PollStep(0)
+				}
+				for _, nd := range w.Nodes {
+					for _, o := range w.PendingOps(nd) {
+						if nd == v && string(o.Type) != OpConfirm {
+							if skip == 0 {
+								op = o
+								break
+							}
+							skip--
+						}
+						_ = w.HandleOp(nd, o)
+					}
+				}
+			}
+			if op == nil {
+				c.Inconclusive("after-reset world: no machine operation became pending")
+				return
+			}
+			wit := map[string]interface{}{"scenario": "result submitted after a state reset that dropped the round", "case_seed": seed, "operation_type": string(op.Type)}
+			api := viaREST(v)
+			// the operator exports the request (dc4bc_cli get_operation), once or twice
+			for k := 0; k <= rep%2; k++ {
+				if _, err := api.Operation(op.ID); err != nil {
+					c.Inconclusive("after-reset world: lookup: %v", err)
+					return
+				}
+			}
+			res, err := w.ColdResult(v, op, false)
+			if err != nil {
+				c.Inconclusive("after-reset world: machine: %v", err)
+				return
+			}
+			first := w.Board.All()[0]
+			form := map[string]interface{}{"new_state_dbdsn": "fresh", "use_offset": rep%2 == 0, "messages": []string{"0"}}
+			if rep%2 == 1 {
+				form["messages"] = []string{first.ID}
+			}
+			if _, err := api.Raw("POST", "/resetState", nil, mkReq(form)); err != nil {
+				c.Inconclusive("after-reset world: reset: %v", err)
+				return
+			}
+			for k := 0; k < 4; k++ {
+				_, _ = v.PollStep(0)
+			}
+			for _, o := range w.PendingOps(v) {
+				if o.ID == op.ID {
+					c.Note("after-reset world: the replay created the operation again (not judged)")
+					return
+				}
+			}
+			c.Add("results_submitted_after_a_reset_that_dropped_the_round", 1)
+			c.Distinct(fmt.Sprintf("after-reset|%s|by-offset=%v|lookups=%d", op.Type, rep%2 == 0, rep%2+1))
+			if api2 := v.API; api2 == nil {
+				v.API = api // the same channel for the submission
+				defer func() { v.API = nil }()
+			}
+			submitAndJudge(c, w, v, c15Sub{Label: "late-result-after-reset:" + string(op.Type), Op: res, Expect: "reject"}, wit)
+		}()
+	}
 }
